@@ -369,6 +369,43 @@ func Corpus(tier string, embedded []*Schema) []*Schema {
 		add(&Schema{Name: "imp_only_b", Files: []*descriptorpb.FileDescriptorProto{fa, fb}, Generate: []string{"vc/imp/b.proto"}, Tier: "thorough"})
 	}
 
+	// ---- two Go packages with the same package name but different import paths, one importing the other
+	{
+		fa := file("vc/samename/one.proto", "vc.samename.one", goPkg("samename", "one/types"))
+		am := newMsg("vc.samename.one", "Thing")
+		am.field("id", 1, tInt64, "")
+		fa.MessageType = append(fa.MessageType, am.msg)
+		fb := file("vc/samename/two.proto", "vc.samename.two", goPkg("samename", "two/types"), "vc/samename/one.proto")
+		bm := newMsg("vc.samename.two", "Holder")
+		bm.field("thing", 1, tMessage, am.path)
+		bm.repeated("things", 2, tMessage, am.path)
+		fb.MessageType = append(fb.MessageType, bm.msg)
+		// and two files of the SAME Go package, one importing the other (init chaining within a package)
+		fc := file("vc/samename/three.proto", "vc.samename.two", goPkg("samename", "two/types"), "vc/samename/two.proto")
+		cm := newMsg("vc.samename.two", "Outer")
+		cm.field("holder", 1, tMessage, bm.path)
+		fc.MessageType = append(fc.MessageType, cm.msg)
+		add(&Schema{Name: "samename", Files: []*descriptorpb.FileDescriptorProto{fa, fb, fc}})
+	}
+
+	// ---- services (method input/output dependencies)
+	{
+		pkg := "vc.svc"
+		f := file("vc/svc.proto", pkg, goPkg("svc", ""))
+		rq := newMsg(pkg, "Req")
+		rq.field("q", 1, tString, "")
+		rs := newMsg(pkg, "Resp")
+		rs.field("r", 1, tInt64, "")
+		ev := newMsg(pkg, "Event")
+		ev.field("e", 1, tBytes, "")
+		f.MessageType = append(f.MessageType, rq.msg, rs.msg, ev.msg)
+		f.Service = append(f.Service, &descriptorpb.ServiceDescriptorProto{Name: proto.String("Svc"), Method: []*descriptorpb.MethodDescriptorProto{
+			{Name: proto.String("Ask"), InputType: proto.String(rq.path), OutputType: proto.String(rs.path)},
+			{Name: proto.String("Watch"), InputType: proto.String(rs.path), OutputType: proto.String(ev.path), ServerStreaming: proto.Bool(true)},
+		}})
+		add(&Schema{Name: "svc", Files: []*descriptorpb.FileDescriptorProto{f}})
+	}
+
 	// ---- well-known types
 	{
 		pkg := "vc.wkt"
@@ -413,6 +450,18 @@ func Corpus(tier string, embedded []*Schema) []*Schema {
 		m2.repeated("list", 2, tString, "")
 		m2.mapField("map", 3, tString, tString, "")
 		f.MessageType = append(f.MessageType, m2.msg)
+		// a field-less "namespace" message whose nested messages have colliding field and oneof names
+		ns := newMsg(pkg, "Namespace")
+		in1 := ns.nested("Inner")
+		in1.field("get", 1, tString, "")
+		in1.field("has", 2, tInt32, "")
+		io := in1.oneof("range")
+		in1.member(io, "is_valid", 3, tBool, "")
+		in1.member(io, "type", 4, tString, "")
+		deep := in1.nested("Deeper")
+		deep.field("descriptor", 1, tString, "")
+		deep.field("new", 2, tBytes, "")
+		f.MessageType = append(f.MessageType, ns.msg)
 		add(&Schema{Name: "names", Files: []*descriptorpb.FileDescriptorProto{f}})
 	}
 
